@@ -12,7 +12,7 @@ use nom::character::complete::{multispace0, multispace1};
 use nom::combinator::{
     all_consuming, into, map, map_res, not, opt, peek, recognize,
 };
-use nom::multi::{fold_many0, many_till, many0};
+use nom::multi::{fold_many0, many_till, many0, many0_count};
 use nom::sequence::{delimited, preceded, terminated};
 use nom_language::error::{VerboseError, VerboseErrorKind};
 pub use rule::property_name;
@@ -84,12 +84,10 @@ fn top_level_item(input: Span) -> PResult<Item> {
                                     terminated(tag("{"), opt_spacelike),
                                     many0(terminated(
                                         alt((
-                                            into(comment),
-                                            into(preceded(
-                                                tag("@import"),
-                                                import2,
-                                            )),
-                                            into(rule::rule),
+                                            map_res(
+                                                top_level_item,
+                                                TryInto::try_into,
+                                            ),
                                             into(rule::property),
                                         )),
                                         opt_spacelike,
@@ -134,13 +132,10 @@ pub(crate) fn import2(input: Span) -> PResult<Import> {
 
 // Arguments for unknwn at-rules.  Should probably be more permitting.
 fn atrule_args(input: Span) -> PResult<Span> {
-    recognize(opt(preceded(
+    recognize(many0_count(alt((
         is_not("()/{}"),
-        opt(terminated(
-            delimited(tag("("), atrule_args, tag(")")),
-            atrule_args,
-        )),
-    )))
+        delimited(tag("("), atrule_args, tag(")")),
+    ))))
     .parse(input)
 }
 
